@@ -279,7 +279,7 @@ def _write_post(e):
 
 CONTRACTS.append(Contract(
     M + ":write_srecord", "C19", make=_mk_write, replay_args=_replay_write, setup=_setup, modules=["ppci.utils.bitfun"],
-    sample_inputs=lambda g, rnd: [{"data": {"__bytes__": [rnd.randrange(256) for _ in range(n)] + tail}} for n in (0, 1, 3, 29, 30, 31, 60, 100, 65535, 65536, 65537, 70000) for tail in ([], [0x20], [0x0A, 0x0D])],
+    sample_inputs=lambda g, rnd: [{"data": {"__bytes__": [rnd.randrange(256) for _ in range(n)] + tail}} for n in (0, 1, 3, 29, 30, 31, 60, 100, 65505, 65506, 65520, 65535, 65536, 65537, 65550, 65551, 65560, 65565, 65566, 65595, 70000) for tail in ([], [0x20], [0x0A, 0x0D])],
     raises=[(ValueError, lambda e: length(e.data) > (1 << 32))],
     ensures=_write_post,
     loops={0: Loop(
